@@ -94,12 +94,25 @@ ArgsLoop:
 		// of a line that is rewritten is left as it is.
 		keepLockable := false
 		if !trackNoModifyAttrsFlag {
+			// A line that spells the pattern exactly as given is the
+			// one this call is about; a line that merely covers it
+			// ("x.bin" for "/x.bin") only counts when there is none.
+			exact := false
+			for _, known := range knownPatterns {
+				if relpath == "." && unescapeAttrPattern(known.Path) == pattern &&
+					path.Dir(filepath.ToSlash(known.Source.Path)) == "." {
+					exact = true
+				}
+			}
 			for _, known := range knownPatterns {
 				knownPath := unescapeAttrPattern(known.Path)
 				// A rooted pattern in the top-level file keeps its
 				// leading slash in known.Path, while path.Join()
 				// removes it.
 				if knownPath != path.Join(relpath, pattern) && !(relpath == "." && knownPath == pattern) {
+					continue
+				}
+				if exact && knownPath != pattern {
 					continue
 				}
 				// The same text read from the attributes file of
